@@ -29,6 +29,7 @@ THEOREMS = [
     "RedunModel.C15.fixed_kwonly_default_merged",
 ]
 TRUSTED = [
+    "text elements of a hashed structure (names, source text, versions) are assumed never to coincide with a hex digest",
     "hashes are symbolic pre-images: hash_struct is modelled as a perfect hash, TypeRegistry.get_hash as an injective "
     "labelling of values (SHA-512/160 collisions and pickle are outside the claim; C14 covers the byte encoding)",
     "modelled, not verified: inspect.signature parameter kinds and order, Python's binding of positional arguments to "
@@ -61,7 +62,8 @@ LEVEL_TEXT = ("Proved for all signatures, config_args and calls (no size bound) 
               "on the model of the code before the repair (variadic value zipped with a keyword-only config name; default "
               "of a keyword-only parameter skipped after *args). Tie: pre-images of real keys compared with the model on "
               "generated signatures/calls; oracle = the statement applied to pairs of real keys; end-to-end sample through a Scheduler.")
-LEVEL_NOTE = ("Hashes are compared as pre-images (perfect-hash assumption). Python's argument binding and inspect.signature are "
+LEVEL_NOTE = ("The model mirrors the code WITH the proposed repair(s) (harness/findings_proposed/C15-*.fix.diff); on a tree "
+              "without them the check reports VIOLATION with concrete replays, by design. Hashes are compared as pre-images (perfect-hash assumption). Python's argument binding and inspect.signature are "
               "modelled. Positional-vs-keyword passing of the same parameter is not claimed to give one key (the statement "
               "does not list it). Values needing preprocessing (Handles) are not modelled.")
 TECHNIQUE = "Lean 4 proof on a hand-written model of get_arg_defaults/hash_args_eval + pre-image correspondence + mutation oracle"
